@@ -206,8 +206,12 @@ def run(ctx: Ctx):
     if not quick:
         glob_table(ctx, "a*.(", 6, "glob table: all patterns x subjects of length <= 6 over {a,*,.,(}")
     s = Stream(ctx, "random trees x exclusion tuples from the tree's own names (glob and regex forms)")
-    rng = ctx.rng("scans")
-    n = ctx.size(3000, 30000)
+    tree_stream(ctx, s, ctx.size(3000, 30000), ctx.rng("scans"))
+    s.finish()
+    return RULE
+
+
+def tree_stream(ctx: Ctx, s, n, rng):
     done = 0
     while done < n and ctx.left() > 20 and not ctx.violations:
         cases = []
@@ -220,5 +224,3 @@ def run(ctx: Ctx):
                           "flagged": rng.randrange(4) if rng.random() < 0.3 else None, "bare_regex_call": rng.random() < 0.3})
         judge_scans(ctx, s, cases)
         done += len(cases)
-    s.finish()
-    return RULE
